@@ -150,9 +150,15 @@ func programs(thorough bool) []program {
 				}
 				bound := 1
 				if hasGo {
-					bound = 2
-					if thorough {
+					// programs with goroutines: interleavings (preemptions) and the
+					// cancellation share one deviation budget
+					switch {
+					case thorough && len(path) <= 2:
 						bound = 3
+					case len(path) <= 2:
+						bound = 2
+					default:
+						bound = 1 // depth 3: the cancellation at every point of the default schedule
 					}
 				}
 				name := strings.Join(names, ">") + ">" + c.Name
@@ -324,6 +330,15 @@ func run(c *common.Ctx) *common.Result {
 		if strings.HasPrefix(a, "only=") {
 			only = strings.TrimPrefix(a, "only=")
 		}
+		if strings.HasPrefix(a, "gobound=") { // debugging aid: override the bound of programs with goroutines
+			var b int
+			fmt.Sscanf(strings.TrimPrefix(a, "gobound="), "%d", &b)
+			for i := range progs {
+				if progs[i].Go {
+					progs[i].Bound = b
+				}
+			}
+		}
 	}
 	for pi, p := range progs {
 		if !c.Mine(pi) || (only != "" && p.Name != only) {
@@ -365,8 +380,16 @@ func run(c *common.Ctx) *common.Result {
 			cl, d := judge(p, x)
 			outcomes[cl] = true
 			if cl != "" && !reported[cl] {
-				reported[cl] = true
 				choices := append([]int{}, r.Choices...)
+				// replay the recorded schedule on a fresh instance before trusting the failure
+				r2 := &explore.Run{Prefix: choices}
+				x2, _ := runOnce(p, r2, false, 0)
+				if cl2, _ := judge(p, x2); r2.Err != nil || !x2.cancelled || cl2 != cl {
+					res.Note(fmt.Sprintf("a failure of %s (%s) did not reproduce when its schedule was replayed (second run: %q): not reported", p.Name, cl, cl2))
+					res.Cap("an execution did not replay identically (machinery)")
+					return true
+				}
+				reported[cl] = true
 				res.Violate(common.Violation{Class: family(p) + "/" + cl, Case: p.Name + "\n" + p.Src, Detail: d + " | schedule=" + fmt.Sprint(choices),
 					Replay: replayData{Program: p, Choices: choices}})
 			}
@@ -399,7 +422,7 @@ func coverage(c *common.Ctx, r *common.Result) map[string]interface{} {
 		"cancellation_instants":         r.Counts["cancellations"],
 		"max_schedule_points":           r.GetMax("points"),
 		"rule": "programs = every nesting (depth <=2 quick, <=3 thorough with family representatives innermost) of 23 wrapping constructs (if/else/else-if, switch case/default, three loop forms, try body / catch / finally, ?? left and right, script functions of arity 0,1,4,5 and variadic, anonymous call, deferred call, go call, callback handed to a Go function) around 11 cores (spinning: four loop forms, map loop, recursion, looping callee - bounded at 22 iterations, far beyond the cancellation window; blocked: receive, send, range, two-value receive on a channel nobody serves); " +
-			"every context poll and channel operation is a schedule point and 'cancel now' competes at each of them (deviation bound 1; programs with goroutines: all interleavings with preemption+cancel bound 2 quick / 3 thorough); after the cancellation the call must return 'execution interrupted', no statement probe may run, no thread may poll more than depth+2 times, no thread may stay blocked; states = distinct (program, oracle outcome) pairs, transitions = scheduler steps, traces_validated = runs in which a cancellation was delivered and judged",
+			"every context poll and channel operation is a schedule point and 'cancel now' competes at each of them (deviation bound 1; programs with goroutines: all interleavings with preemption+cancel bound 2 (thorough: bound 3 at depth <= 2, bound 1 at depth 3)); after the cancellation the call must return 'execution interrupted', no statement probe may run, no thread may poll more than depth+2 times, no thread may stay blocked; states = distinct (program, oracle outcome) pairs, transitions = scheduler steps, traces_validated = runs in which a cancellation was delivered and judged",
 	}
 }
 
